@@ -22,7 +22,7 @@ LEVEL = 'proof'
 PROPS_MODULES = ['RTV.Props.C10']
 GEN = ['chartables', 'durationmaps']
 REQUIRED_THEOREMS = ['duration_timex_reads_back', 'duration_value_matches_timex', 'luis_time_span_inverse',
-                     'between_dates_consistent', 'unit_tables_consistent']
+                     'between_dates_consistent', 'between_times_consistent', 'unit_tables_consistent']
 RULE = ('N in {1,2,3,7,30,365,1000,5000} (quick: 3 of them per spelling) × every spelling of every culture\'s duration '
         'unit_map; ordered pairs of absolute dates and of clock times in English; every range entity over the '
         'Python-supported DateTime Specs inputs of all cultures; non-trivial = distinct query that produced an entity of '
